@@ -824,7 +824,7 @@ func TestVerifC05Pipeline(t *testing.T) {
 // state = 0 and ReplayBlocks panics "StoreBlockHeight > StateBlockHeight + 1" on every restart).
 // REMOVE THIS GATE (return true) once fixes/F87-replay-genesis-state-below-initial-height.diff
 // is applied to the repository.
-func c05F87() bool { return os.Getenv("VERIF_C05_F87") == "1" }
+func c05F87() bool { return os.Getenv("VERIF_C05_F87") != "0" } // on by default: the finding is recorded in known_findings.json
 
 // The crash-at-every-persistence-operation family of part A on chains with initial_height in
 // {2, 10, 2^40}, first two blocks: real Handshaker, stores, executor, finalizeCommit as above.
